@@ -1,5 +1,12 @@
-(* C01 — No stuck keys.  Statements only. *)
+(* C01 — No stuck keys.  Statements only.
+   C01_no_stuck_keys is about the events the mapper returns; the theorems after
+   it carry it through the event loop to what is WRITTEN to the virtual keyboard
+   (TM.LoopDevice: the device-level monitor `device_check` that the loop engine
+   applies, extracted, to the transcripts of the REAL loop, clause C01.device;
+   proofs in TM.LoopDeviceLemmas).  The byte-level form is
+   C10_every_write_keeps_the_device_in_step (Properties/C10.v). *)
 From TM Require Import Base Mapper Monitors Trace MapperInv MapperProps.
+From TM Require Loop LoopSpec LoopDevice LoopDeviceLemmas.
 
 (* For EVERY key classification, EVERY accepted layout and EVERY finite history
    (duplicate presses, releases of keys never pressed and release-all calls
@@ -22,4 +29,104 @@ Example C01_example :
             IEv (Released 99%N); IEv (Released 36%N)] in
   for_layout_ok L = true /\ phys_of h = [] /\ held_all ia L h = []
   /\ held_all ia L (firstn 2 h) = [42%N; 105%N].
+Proof. vm_compute. repeat split; reflexivity. Qed.
+
+(* ---------- at the device: through the event loop ---------- *)
+
+(* In EVERY configuration of EVERY run of the per-device loop (any answer
+   script: batching, time-outs with their timer chords, interruptions, tablet
+   events, errors), layout accepted by Mapper::for_layout: whenever the inputs
+   the transcript implies for the mapper so far (LoopSpec.minputs: key events
+   read while the tablet switch is off, a release-all per tablet event) leave
+   no key physically held, the events of all acknowledged sends followed by the
+   send being waited on (`written_at`) leave NO key held on the device. *)
+Theorem C01_loop_no_stuck_keys_at_the_device :
+  forall (is_action : key -> bool) (L : layout),
+    for_layout_ok L = true ->
+    forall (rs : list Loop.resp) (cs : list Loop.call) (o : Loop.outcome) (k : nat) (x : LoopSpec.conf),
+    Loop.run is_action L rs = (cs, o) -> LoopSpec.conf_at is_action L rs k = Some x ->
+    phys_of (LoopSpec.minputs false (firstn k (combine cs rs))) = [] ->
+    apply_evs [] (LoopDeviceLemmas.written_at cs rs k x) = [].
+Proof. intros ia L Hok rs cs o k x. exact (LoopDeviceLemmas.loop_device_no_stuck_keys ia L rs cs o k x Hok). Qed.
+Print Assumptions C01_loop_no_stuck_keys_at_the_device.
+
+(* The extracted one-pass monitor LoopDevice.device_check (what the loop engine
+   applies to every transcript of the REAL loop; clause D_stuck is reported as
+   C01.device) never fires on a transcript of the model, for ALL answer scripts:
+   neither D_stuck nor any other clause. *)
+Theorem C01_loop_device_monitor_never_fires :
+  forall (is_action : key -> bool) (L : layout),
+    for_layout_ok L = true ->
+    forall (rs : list Loop.resp) (cs : list Loop.call) (o : Loop.outcome),
+    Loop.run is_action L rs = (cs, o) ->
+    LoopDevice.device_check is_action L (combine cs rs) = []
+    /\ forall n : N, ~ In (n, LoopDevice.D_stuck) (LoopDevice.device_check is_action L (combine cs rs)).
+Proof.
+  intros ia L Hok rs cs o Hrun. split.
+  - exact (LoopDeviceLemmas.device_check_silent ia L rs cs o Hok Hrun).
+  - intros n. exact (LoopDeviceLemmas.device_clause_silent ia L rs cs o Hok Hrun n LoopDevice.D_stuck).
+Qed.
+Print Assumptions C01_loop_device_monitor_never_fires.
+
+(* What a firing means, for ANY transcript (in particular one recorded from the
+   real loop): a hit (n, clause) names an entry i = n whose call cl, with the
+   transcript `pre` before it, violates the statement above / its C02 / C19
+   counterparts: with `acked pre` the events of the acknowledged sends and
+   `payload cl` the events of cl when it is a send,
+     D_stuck      nothing is physically held, and a key is held on the device
+     D_step       the device's held set is not the specification mapper's
+     D_redundant  the send presses a held key or releases a key that is up. *)
+Theorem C01_device_monitor_hit_means :
+  forall (is_action : key -> bool) (L : layout) (tr : list (Loop.call * Loop.resp)) (n : N) (c : LoopDevice.dclause),
+    In (n, c) (LoopDevice.device_check is_action L tr) ->
+    exists (i : nat) (cl : Loop.call) (r : Loop.resp),
+      n = N.of_nat i /\ nth_error tr i = Some (cl, r)
+      /\ let pre := firstn i tr in
+         match c with
+         | LoopDevice.D_redundant =>
+             redundant (apply_evs [] (LoopSpec.acked pre)) (LoopDevice.payload cl) = true
+         | LoopDevice.D_step =>
+             ~ seteq (apply_evs [] (LoopSpec.acked pre ++ LoopDevice.payload cl))
+                     (held_of (state_of is_action L (LoopSpec.minputs false pre)))
+         | LoopDevice.D_stuck =>
+             phys_of (LoopSpec.minputs false pre) = []
+             /\ apply_evs [] (LoopSpec.acked pre ++ LoopDevice.payload cl) <> []
+         end.
+Proof. exact LoopDeviceLemmas.device_check_hit_means. Qed.
+Print Assumptions C01_device_monitor_hit_means.
+
+(* Non-vacuity: the monitor fires on transcripts a defective loop would
+   produce.  tr1: A (30) is mapped to B (48); B goes down; the poll is
+   interrupted and the loop continues with a FRESH mapper, which ignores the
+   release of A and later presses B again: B stays down with nothing physically
+   held (D_stuck and D_step from entry 9 on) and is pressed while down
+   (D_redundant at entry 12).  tr2: the tablet switch turns on while B is down
+   and the release-all batch is never written.  On the model's own transcript
+   for the first script the monitor is silent. *)
+Example C01_example_device_monitor :
+  let ia := fun k => negb (N.eqb k 42) in
+  let L := [mkMapping [30%N] [48%N] RNormal []] in
+  let tr1 := [(Loop.CRegister, Loop.RUnit); (Loop.CPoll None, Loop.RPoll (Loop.PDeviceEvent [Loop.DKbd]));
+              (Loop.CNextKbd, Loop.RKbd (Loop.NOne (Pressed 30%N))); (Loop.CSend [Pressed 48%N], Loop.RUnit);
+              (Loop.CNextKbd, Loop.RKbd Loop.NBusy); (Loop.CPoll None, Loop.RPoll Loop.PInterrupted);
+              (Loop.CRegister, Loop.RUnit); (Loop.CPoll None, Loop.RPoll (Loop.PDeviceEvent [Loop.DKbd]));
+              (Loop.CNextKbd, Loop.RKbd (Loop.NOne (Released 30%N))); (Loop.CNextKbd, Loop.RKbd Loop.NBusy);
+              (Loop.CPoll None, Loop.RPoll (Loop.PDeviceEvent [Loop.DKbd]));
+              (Loop.CNextKbd, Loop.RKbd (Loop.NOne (Pressed 30%N))); (Loop.CSend [Pressed 48%N], Loop.RUnit);
+              (Loop.CNextKbd, Loop.RKbd Loop.NBusy)] in
+  let tr2 := [(Loop.CRegister, Loop.RUnit); (Loop.CPoll None, Loop.RPoll (Loop.PDeviceEvent [Loop.DKbd]));
+              (Loop.CNextKbd, Loop.RKbd (Loop.NOne (Pressed 30%N))); (Loop.CSend [Pressed 48%N], Loop.RUnit);
+              (Loop.CNextKbd, Loop.RKbd Loop.NBusy); (Loop.CPoll None, Loop.RPoll (Loop.PDeviceEvent [Loop.DTab]));
+              (Loop.CNextTab, Loop.RTab (Loop.NOne true)); (Loop.CNextTab, Loop.RTab Loop.NBusy)] in
+  let rs := [Loop.RUnit; Loop.RPoll (Loop.PDeviceEvent [Loop.DKbd]); Loop.RKbd (Loop.NOne (Pressed 30%N)); Loop.RUnit;
+             Loop.RKbd Loop.NBusy; Loop.RPoll Loop.PInterrupted; Loop.RPoll (Loop.PDeviceEvent [Loop.DKbd]);
+             Loop.RKbd (Loop.NOne (Released 30%N)); Loop.RUnit; Loop.RKbd Loop.NBusy] in
+  for_layout_ok L = true
+  /\ LoopDevice.device_check ia L tr1
+     = [(9%N, LoopDevice.D_step); (9%N, LoopDevice.D_stuck); (10%N, LoopDevice.D_step); (10%N, LoopDevice.D_stuck);
+        (11%N, LoopDevice.D_step); (11%N, LoopDevice.D_stuck); (12%N, LoopDevice.D_redundant)]
+  /\ LoopDevice.device_check ia L tr2
+     = [(7%N, LoopDevice.D_step); (7%N, LoopDevice.D_stuck)]
+  /\ nth_error (fst (Loop.run ia L rs)) 8 = Some (Loop.CSend [Released 48%N])
+  /\ LoopDevice.device_check ia L (combine (fst (Loop.run ia L rs)) rs) = [].
 Proof. vm_compute. repeat split; reflexivity. Qed.
